@@ -93,6 +93,7 @@ type stmtDef struct {
 }
 
 type nodeState struct {
+	node       *memcluster.Node
 	idx        int
 	ip         string
 	hostID     string
@@ -123,15 +124,25 @@ type world struct {
 	live     map[int]*liveCall // calls with a cancellable context (history lock)
 	stalled  bool              // the watchdog expired but the executions returned right after the goroutine dump
 	// hooks for directed scenarios: called with the history lock held, may override the fate
-	issued    map[string][]byte // id -> the value widths declared with it (never forgotten; history lock)
-	serialOf  map[string]int    // id -> the number of the latest PREPARE that issued it (history lock)
-	prepKey   map[int]string    // PREPARE number -> key label (history lock)
-	lastX     map[int][][]byte  // call -> the ids of its last EXECUTE / BATCH frame (history lock)
-	silent    map[string]int    // key label -> the one PREPARE of that key that was never answered (history lock)
-	spurious  bool              // a call returned the driver's timeout error without a silent PREPARE of its statements
-	timeout   time.Duration     // the Session's request timeout, if the world has a short one (silent PREPAREs allowed)
-	onPrepare func(n *nodeState, stmt int, serial int) (pfate, chan struct{})
-	onExec    func(n *nodeState, call int, known bool) (xfate, chan struct{}, bool)
+	issued   map[string][]byte // id -> the value widths declared with it (never forgotten; history lock)
+	serialOf map[string]int    // id -> the number of the latest PREPARE that issued it (history lock)
+	prepKey  map[int]string    // PREPARE number -> key label (history lock)
+	lastX    map[int][][]byte  // call -> the ids of its last EXECUTE / BATCH frame (history lock)
+	silent   map[string]int    // key label -> the one PREPARE of that key that was never answered (history lock)
+	proto    int
+	// connection loss (at most one per world): from D on - until the pool is seen whole again - every call that is
+	// running or starts is PERMITTED to return an abort error (K:<c>, here: "the connection serving call c was closed
+	// by the server", the same licence a done context gives); a call that starts later has no such licence
+	lossy        bool         // the window is open (history lock)
+	lost         bool         // a connection loss happened in this world
+	running      map[int]bool // calls started and not returned (history lock)
+	permitted    map[int]bool // calls with a K logged for the connection loss (history lock)
+	connsAtStart map[*gocql.Conn]bool
+	closedAt     map[string]int // key label -> the PREPARE that was answered by closing the connections
+	spurious     bool           // a call returned the driver's timeout error without a silent PREPARE of its statements
+	timeout      time.Duration  // the Session's request timeout, if the world has a short one (silent PREPAREs allowed)
+	onPrepare    func(n *nodeState, stmt int, serial int) (pfate, chan struct{})
+	onExec       func(n *nodeState, call int, known bool) (xfate, chan struct{}, bool)
 }
 
 type entrySpec struct {
@@ -220,6 +231,50 @@ func (w *world) cancelOnPrepareLocked(n *nodeState, si int, mode int) {
 	for _, num := range nums {
 		w.cancelLocked(num)
 	}
+}
+
+// permitAbortLocked logs K:<num> once: call num may return an abort error from here on (history lock held).
+func (w *world) permitAbortLocked(num int) {
+	if !w.permitted[num] {
+		w.permitted[num] = true
+		w.h.evs = append(w.h.evs, hev{text: fmt.Sprintf("K:%d", num)})
+	}
+}
+
+// loseConnections: the server closes every connection of node n. Logged first (K for every running call, in call
+// order), then done.
+func (w *world) loseConnections(n *nodeState) {
+	w.h.mu.Lock()
+	w.lossy, w.lost = true, true
+	var nums []int
+	for num := range w.running {
+		nums = append(nums, num)
+	}
+	sort.Ints(nums)
+	for _, num := range nums {
+		w.permitAbortLocked(num)
+	}
+	w.h.mu.Unlock()
+	for _, sc := range n.node.ServerConns() {
+		sc.Close()
+	}
+}
+
+// poolRenewed (one-host worlds): the pool holds at least one connection, none of them closed and none of them one
+// of the connections the session had before the loss (those are all closed by the server, whether or not the
+// driver has noticed yet; a connection dialled after the driver noticed a loss is a good one). The pool refills
+// the rest on the next Pick.
+func (w *world) poolRenewed() bool {
+	conns := gocql.VerifSessionConns(w.sess)
+	if len(conns) == 0 {
+		return false
+	}
+	for _, c := range conns {
+		if c.Closed() || w.connsAtStart[c] {
+			return false
+		}
+	}
+	return true
 }
 
 func keyLabel(host, stmt int) string { return fmt.Sprintf("h%d.s%d", host, stmt) }
@@ -348,7 +403,7 @@ func (w *world) handle(n *nodeState, req *memcluster.Request) {
 		var op byte
 		var body []byte
 		w.prepKey[serial] = key
-		silent := false
+		silent, closing := false, false
 		if f.fail {
 			kind := f.kind
 			if kind == pfSilent {
@@ -358,6 +413,14 @@ func (w *world) handle(n *nodeState, req *memcluster.Request) {
 				} else {
 					w.silent[key] = serial
 					silent = true
+				}
+			}
+			if kind == pfClosed {
+				if _, used := w.closedAt[key]; used || w.lost {
+					kind = pfFrame
+				} else {
+					w.closedAt[key] = serial
+					closing = true
 				}
 			}
 			w.h.evs = append(w.h.evs, hev{text: fmt.Sprintf("P:%d:%s:err/%s", serial, key, pfWords[kind])})
@@ -371,12 +434,17 @@ func (w *world) handle(n *nodeState, req *memcluster.Request) {
 			w.serialOf[string(id)] = serial
 			w.h.evs = append(w.h.evs, hev{text: fmt.Sprintf("P:%d:%s:ok/%s/%d/%s", serial, key, vh.Hex(id), nc, vh.Hex(sig))})
 			op = memcluster.OpResult
-			body = memcluster.PreparedBody(4, id, sigCols(sig, "b"), nil,
+			body = memcluster.PreparedBody(w.proto, id, sigCols(sig, "b"), nil,
 				[]memcluster.Col{{Name: fmt.Sprintf("r%d", serial), Type: memcluster.TInt}})
 		}
 		w.h.mu.Unlock()
 		if silent {
 			// never answered: the flight's Conn.exec ends with the driver's timeout
+			return
+		}
+		if closing {
+			// never answered: the connections go instead (after the gate / delay, like an answer)
+			after(f.delay, gate, func() { w.loseConnections(n) })
 			return
 		}
 		atomic.AddInt32(&w.pending, 1)
@@ -512,6 +580,13 @@ func (w *world) handle(n *nodeState, req *memcluster.Request) {
 			n.registered = map[string]int{}
 			ans = unTok(ids[0])
 			op, body = memcluster.OpError, memcluster.ErrorBody(memcluster.ErrUnprepared, "unprepared", memcluster.UnpreparedExtra(ids[0]))
+		case f.kind == 4 && !w.lost:
+			// not answered: the server closes the host's connections instead
+			ans = "err"
+			w.h.evs = append(w.h.evs, hev{text: fmt.Sprintf("X:%d:%s:%s", call, hexToks(ids, sigs), ans)})
+			w.h.mu.Unlock()
+			after(f.delay, gate, func() { w.loseConnections(n) })
+			return
 		case f.kind == 3:
 			w.nforget++
 			other := []byte("other-id")
@@ -589,13 +664,15 @@ type worldCfg struct {
 	stableID                 bool
 	ks                       string
 	timeout                  time.Duration // 0: the usual 10 minutes (no request ever times out)
+	proto                    int           // native protocol version (0: 4)
 }
 
 func newWorld(r *vh.Rng, c worldCfg) (*world, error) {
 	w := &world{r: r, h: &hist{}, stmts: c.stmts, stmtIdx: map[string]int{}, byIP: map[string]*nodeState{},
 		stableID: c.stableID, ks: c.ks, keyLabel: map[string]string{}, capacity: c.capacity, frames: map[int]int{}, cut: map[int]bool{},
 		live: map[int]*liveCall{}, issued: map[string][]byte{}, serialOf: map[string]int{}, prepKey: map[int]string{},
-		lastX: map[int][][]byte{}, silent: map[string]int{}, timeout: c.timeout}
+		lastX: map[int][][]byte{}, silent: map[string]int{}, timeout: c.timeout, running: map[int]bool{}, permitted: map[int]bool{},
+		closedAt: map[string]int{}}
 	for i, s := range c.stmts {
 		w.stmtIdx[s.text] = i
 	}
@@ -603,15 +680,20 @@ func newWorld(r *vh.Rng, c worldCfg) (*world, error) {
 	for i := 0; i < c.nhosts; i++ {
 		ips = append(ips, fmt.Sprintf("10.14.0.%d", i+1))
 	}
-	cl := memcluster.NewCluster(4, ips...)
+	if c.proto == 0 {
+		c.proto = 4
+	}
+	w.proto = c.proto
+	cl := memcluster.NewCluster(c.proto, ips...)
 	for i, ip := range ips {
 		n := &nodeState{idx: i, ip: ip, registered: map[string]int{}, pf: map[int][]pfate{}}
 		w.nodes = append(w.nodes, n)
 		w.byIP[ip] = n
 		node := cl.Nodes[ip]
+		n.node = node
 		node.Handle = func(req *memcluster.Request) { w.handle(n, req) }
 	}
-	cfg := sess.Config(cl, 4, ips...)
+	cfg := sess.Config(cl, c.proto, ips...)
 	cfg.NumConns = c.nconns
 	cfg.Timeout = 10 * time.Minute
 	if c.timeout > 0 {
@@ -628,6 +710,10 @@ func newWorld(r *vh.Rng, c worldCfg) (*world, error) {
 	}
 	w.sess = s
 	sess.WaitConns(s, c.nhosts*c.nconns, 5*time.Second)
+	w.connsAtStart = map[*gocql.Conn]bool{}
+	for _, cn := range gocql.VerifSessionConns(s) {
+		w.connsAtStart[cn] = true
+	}
 	pol.mu.Lock()
 	for ip, h := range pol.hosts {
 		if n := w.byIP[ip]; n != nil {
@@ -699,6 +785,10 @@ func (w *world) classify(c *callSpec, err error) string {
 		if silentRe.MatchString(err.Error()) && w.timeout > 0 {
 			w.spurious = true
 		}
+		if w.lost && connLostRe.MatchString(err.Error()) {
+			// a connection error: an abort error, judged like a context error (licensed by K or not)
+			return "ctx"
+		}
 	}
 	return classify(err)
 }
@@ -753,6 +843,10 @@ func (w *world) doCall(c *callSpec) {
 		kind = "b"
 	}
 	w.h.evs = append(w.h.evs, hev{text: fmt.Sprintf("S:%d:%s:%s", num, kind, strings.Join(es, ","))})
+	w.running[num] = true
+	if w.lossy {
+		w.permitAbortLocked(num)
+	}
 	ctx := context.WithValue(context.Background(), ctxKey{}, w.nodes[c.host].ip)
 	if c.ctx != ctxBg {
 		var cancel context.CancelFunc
@@ -834,6 +928,7 @@ func (w *world) doCall(c *callSpec) {
 	if lc := w.live[num]; lc != nil {
 		lc.returned = true
 	}
+	delete(w.running, num)
 	if !w.h.stopped {
 		if err == nil && !c.batch {
 			// result metadata of that statement: the Iter's column is the one the PREPARE whose id the call's last
@@ -940,6 +1035,7 @@ func (w *world) render(hung string) string {
 	w.h.mu.Unlock()
 	// resolve the flights of R events to PREPARE numbers
 	unresolved := 900000
+	closedUsed := map[string]bool{}
 	labels := map[interface{}]int{}
 	var words []string
 	for _, e := range evs {
@@ -964,6 +1060,11 @@ func (w *world) render(hung string) string {
 				w.h.mu.Lock()
 				if n, ok := w.failedPrepareSerial(tag, []string{key}); ok {
 					lab = n
+				} else if n, ok := w.closedAt[key]; ok && !closedUsed[key] && w.lost {
+					// the first flight of that key that failed without a numbered error is the one whose PREPARE
+					// was answered by closing the connections (a later one never reached the server)
+					closedUsed[key] = true
+					lab = n
 				}
 				w.h.mu.Unlock()
 			}
@@ -981,7 +1082,9 @@ func (w *world) render(hung string) string {
 	// a cache that cannot purge for capacity (unbounded, or far larger than the number of keys of a run): the
 	// specification then also demands a reason for every removal
 	opw := "trace "
-	if w.capacity == 0 || w.capacity >= 1000 {
+	if (w.capacity == 0 || w.capacity >= 1000) && !w.lost {
+		// (after a connection loss a flight can fail before its PREPARE reaches the server: such a removal has no
+		// observable reason, so these histories are judged without the every-removal-justified clause)
 		opw = "traceU "
 	}
 	return opw + strings.Join(words, " ")
@@ -1114,7 +1217,7 @@ func (rn *runner) randomWith(near bool) {
 	nst := 1 + r.Intn(5)
 	caps := []int{1, 1, 2, 2, 3, 1000, 1000, 0}
 	c := worldCfg{nhosts: 1 + r.Intn(2), nconns: 1 + r.Intn(2), capacity: caps[r.Intn(len(caps))],
-		stableID: r.Intn(3) == 0}
+		stableID: r.Intn(3) == 0, proto: []int{4, 4, 4, 3}[r.Intn(4)]}
 	if near {
 		c.stmts = mkStmtsNear(2+r.Intn(6), r)
 		nst = len(c.stmts)
@@ -1215,7 +1318,7 @@ func (rn *runner) randomWith(near bool) {
 	if near {
 		cls = "random-near"
 	}
-	rn.emit(w, &wg, fmt.Sprintf("%s/hosts%d/cap%d/cancel%d", cls, c.nhosts, c.capacity, cancelPct))
+	rn.emit(w, &wg, fmt.Sprintf("%s/hosts%d/cap%d/cancel%d/v%d", cls, c.nhosts, c.capacity, cancelPct, c.proto))
 }
 
 // randCtx gives the call a context that becomes done at some point.
@@ -1615,6 +1718,101 @@ func (rn *runner) startPrepareFails(kind, role int, batch bool) *startedRun {
 		kindw = "batch"
 	}
 	return &startedRun{w: w, wg: wg, class: fmt.Sprintf("prepare-fails/%s/%s/%s", pfWords[kind], []string{"cold", "after-loss"}[role], kindw)}
+}
+
+// connectionLost: the server closes every connection of the host (a node that goes away and comes back with its
+// prepared statements) instead of answering - role 0: the PREPARE of a cold statement, with 2..4 executions waiting
+// for it (the flight's Conn.exec fails: the c.exec error arm of prepareStatement, no timeout involved); role 1: the
+// EXECUTE / BATCH frames of 2..4 executions of a cached statement. From the loss on, until the pool is seen whole
+// again, every call that is running or starts has a K (it may return an abort error: the connection error, or
+// context.Canceled from the CONNECTION's context, which is what a flight started on a closed connection fails with);
+// the probes afterwards start without that licence: they must find no remembered failure, prepare again where the
+// entry is gone and succeed. Judged without the every-removal-justified clause (a flight published on a connection
+// that is already closed fails before its PREPARE reaches the server).
+func (rn *runner) connectionLost(role int, batch bool) {
+	r := rn.r
+	c := worldCfg{nhosts: 1, nconns: 1 + r.Intn(2), capacity: []int{1000, 0, 2}[r.Intn(3)], stmts: mkStmts(2, r), stableID: r.Bool()}
+	w, err := newWorld(r, c)
+	if err != nil {
+		rn.out.Case("trace Z:no-session", "accept", "conc/no-session", true)
+		return
+	}
+	for j := range w.stmts {
+		if batch && w.stmts[j].ncols == 0 {
+			w.stmts[j].ncols = 1
+		}
+	}
+	spec := func() *callSpec {
+		if batch {
+			return &callSpec{batch: true, host: 0, entries: []entrySpec{{stmt: 1, nvals: w.stmts[1].ncols}, {stmt: 0, nvals: w.stmts[0].ncols}}}
+		}
+		return &callSpec{host: 0, entries: []entrySpec{{stmt: 0, nvals: w.stmts[0].ncols}}}
+	}
+	k := 2 + r.Intn(3)
+	gate := make(chan struct{})
+	if role == 1 {
+		w.doCall(spec())
+	}
+	first := w.h.ncalls
+	fired := false
+	if role == 0 {
+		w.onPrepare = func(n *nodeState, stmt, serial int) (pfate, chan struct{}) {
+			if stmt == 0 && !fired {
+				fired = true
+				return pfate{fail: true, kind: pfClosed}, gate
+			}
+			return pfate{}, nil
+		}
+	} else {
+		w.onExec = func(n *nodeState, call int, known bool) (xfate, chan struct{}, bool) {
+			if call >= first && !fired && known {
+				fired = true
+				return xfate{kind: 4}, gate, true
+			}
+			return xfate{}, nil, false
+		}
+	}
+	var callers sync.WaitGroup
+	for i := 0; i < k; i++ {
+		callers.Add(1)
+		go func() { defer callers.Done(); w.doCall(spec()) }()
+	}
+	go func() {
+		w.waitHist(func(evs []hev) bool {
+			n := 0
+			for _, e := range evs {
+				if strings.HasPrefix(e.text, "S:") {
+					n++
+				}
+			}
+			return n >= first+k
+		})
+		time.Sleep(15 * time.Millisecond) // schedule only
+		close(gate)
+	}()
+	// the window closes when the callers are back and the pool is whole again (if that is not seen in time it stays
+	// open: the probes then have the licence too)
+	wg := &sync.WaitGroup{}
+	wg.Add(1)
+	go func() {
+		defer wg.Done()
+		callers.Wait()
+		dl := time.Now().Add(3 * time.Second)
+		for time.Now().Before(dl) {
+			if w.poolRenewed() {
+				w.h.mu.Lock()
+				w.lossy = false
+				w.h.mu.Unlock()
+				return
+			}
+			time.Sleep(time.Millisecond)
+		}
+	}()
+	kindw := "query"
+	if batch {
+		kindw = "batch"
+	}
+	rn.emit(w, wg, fmt.Sprintf("connection-lost/%s/%s", []string{"at-prepare", "at-execute"}[role], kindw))
 }
 
 func (rn *runner) prepareFails(kind, role int, batch bool) {
@@ -2092,6 +2290,13 @@ func sessionTier(r *vh.Rng, out *vh.Out, outdir string, mult int) {
 				steps = append(steps, func() { rn.prepareFails(kind, role, false) })
 				steps = append(steps, func() { rn.prepareFails(kind, role, true) })
 			}
+		}
+	}
+	for i := 0; i < 2*mult; i++ {
+		for role := 0; role < 2; role++ {
+			role := role
+			steps = append(steps, func() { rn.connectionLost(role, false) })
+			steps = append(steps, func() { rn.connectionLost(role, true) })
 		}
 	}
 	for i := 0; i < 12*mult; i++ {
